@@ -207,11 +207,25 @@ def _generic_memo(ctx):
     # callee changes what the anchored function computes just as well.  Only
     # carriers of state are looked at there (cheap syntactic pre-filter in
     # memo.might_carry_state), so the wider scope costs little.
-    from .memo import might_carry_state
+    from .memo import might_carry_state, cache_decorators
     try:
         reach = prog.reachable(sorted(quals))
     except Exception:  # noqa: BLE001
         reach = set()
+    # a cached helper that the reference tree does not know was inlined at
+    # its call sites (no call edge is left): its cache is judged anyway
+    try:
+        from .refnames import load_ref
+        ref = load_ref() or {}
+    except Exception:  # noqa: BLE001
+        ref = {}
+    scope_modules = {prog.funcs[q].module.name for q in set(quals) | set(
+        reach) if q in prog.funcs}
+    for q, fn in prog.funcs.items():
+        import ast as _ast
+        if q not in ref and not isinstance(fn.node, _ast.Lambda) and \
+                fn.module.name in scope_modules and cache_decorators(fn):
+            reach.add(q)
     for q in sorted(reach):
         fn = prog.funcs.get(q)
         if fn is not None and q not in quals and might_carry_state(prog, fn):
